@@ -19,9 +19,13 @@ if [ "${1:-}" = "explain" ]; then
 fi
 ID="${1:?property id}"; TIER="${2:-${VERIF_TIER:-quick}}"
 export GOFLAGS=-mod=mod
-"$HERE/bin/gfcheck" -prop "$ID" -tier "$TIER" -repo "$REPO" -out "${VERIF_OUT:-$HERE/evidence}" -known "$HERE/known_findings.json" -controls "$HERE/checker/testdata/controls"
-rc=$?
-if [ "$TIER" = "thorough" ] && [ -x "$HERE/thorough.sh" ]; then
-  "$HERE/thorough.sh" "$ID" || rc=1
+AUXARG=""
+if [ "$TIER" = "thorough" ] && [ -z "${VERIF_NO_THOROUGH:-}" ]; then
+  AUX="$(mktemp /tmp/gfaux.XXXXXX)"
+  "$HERE/thorough.sh" "$ID" "$AUX"
+  AUXARG="-aux $AUX"
 fi
+"$HERE/bin/gfcheck" -prop "$ID" -tier "$TIER" -repo "$REPO" -out "${VERIF_OUT:-$HERE/evidence}" -known "$HERE/known_findings.json" -controls "$HERE/checker/testdata/controls" $AUXARG
+rc=$?
+[ -n "${AUX:-}" ] && rm -f "$AUX"
 exit $rc
